@@ -161,7 +161,7 @@ def judge(root: str, case: dict, variant: int, sp: list, *, subprocess_too: bool
     real = project(obs)
     # predicted: the real run is what the Impl lane of the spec (the transcription of cli.py) does on this command line
     predicted = (real["exit"], real["status"], real["writes"]) == (impl["exit"], impl["status"], spec_writes(impl["writes"]))
-    base = {"cause": cause_of(ref["features"]), "out": a["out"], "job": case["job"], "predicted": predicted}
+    base = {"cause": cause_of(ref["features"]), "out": a["out"], "job": case["job"], "predicted": predicted, "exception": real["exception"]}
 
     def bad(clause: str, what: str, **more):
         res["violations"].append(({"clause": clause, **base, **more}, f"{what}; argv={argv}"))
@@ -187,11 +187,9 @@ def judge(root: str, case: dict, variant: int, sp: list, *, subprocess_too: bool
         return res
     # ---- (E1) exit status, (E2) no escaping exception -------------------------------------------------------------
     if real["status"] == "exc":
-        bad("no-escape", f"{real['exception']} escapes griffe.main", exception=real["exception"])
+        bad("no-escape", f"{real['exception']} escapes griffe.main")
     if real["exit"] != ref["exit"]:
         bad("exit-status", f"exit status {real['exit']} ({obs['status']}), reference {ref['exit']}", real=real["exit"], ref=ref["exit"], status=real["status"])
-    elif real["status"] != "exc" and (real["status"] == "sysexit") != (usage):
-        bad("exit-status", f"ends by {obs['status']}, reference {'argparse exit' if usage else 'return'}", real=real["exit"], ref=ref["exit"], status=real["status"])
     # ---- (O1) placement -------------------------------------------------------------------------------------------
     want_w = spec_writes(ref["writes"])
     if real["writes"] != want_w:
@@ -223,9 +221,16 @@ def judge(root: str, case: dict, variant: int, sp: list, *, subprocess_too: bool
         if low:
             bad("log-threshold", f"record below the -L threshold {level}: {low[0]}")
         errs = [r[1] for r in real["records"] if r[0] in ("ERROR", "CRITICAL")]
-        want_e = [W.arg_of(t) if t != "<extensions>" else "" for t in ref["errors"]] if level <= 40 else []
-        if real["status"] != "exc" and (len(errs) != len(want_e) or any(w not in e for w, e in zip(want_e, errs))):
-            bad("errors-logged", f"ERROR records {errs}, reference one per failed package {want_e}")
+        failed = [W.arg_of(t) for t in ref["errors"]] if level <= 40 else []
+
+        def names(rec: str, pkg: str) -> bool:
+            return pkg == "<extensions>" or re.search(r"(?<![\w.])" + re.escape(pkg) + r"(?!\w)", rec) is not None
+
+        if real["status"] != "exc":
+            silent = [p for p in failed if not any(names(e, p) for e in errs)]
+            stray = [e for e in errs if not any(names(e, p) for p in failed)]
+            if silent or stray:
+                bad("errors-logged", f"ERROR records {errs}: failed packages without a record {silent}, records naming no failed package {stray[:2]}")
         if level >= 20 and real["status"] != "exc":
             n_impl = sum(1 for r in impl["logs"] if 20 <= r["lv"] < 40 and r["lv"] >= level)
             n_real = sum(1 for r in real["records"] if r[0] == "INFO")
